@@ -21,7 +21,7 @@ CIRCUITSIM_ASSUME = [
 CHECK = {
     "C07": dict(
         bin="run_circuitsim", build="external", pkg="run_circuitsim", level="exploration",
-        quick=dict(runs=16000, wall=80), thorough=dict(runs=250000, wall=1100),
+        quick=dict(runs=64000, wall=80), thorough=dict(runs=1500000, wall=1100),
         rule="one evaluation = one seeded run of one arm. seq/fault-free and seq/faulty: a sequence of 30-90 circuit-map calls, channel events (sign, revoke, link flap, close pending/fully, resolution messages) and restarts issued by one client; the reference model is compared with every return value and with the complete lookup view (LookupCircuit over all incoming keys, LookupOpenCircuit over all outgoing keys, NumPending, NumOpen, closing set probed with FailCircuit) after every call; faulty adds FailWrite/CrashBefore/CrashAfter on the write of any call and on the 1st-4th write of NewCircuitMap. race: 2-3 client goroutines interleaved at every transaction entry and call return (<= 36 calls after a model-checked prelude), linearizability of the invoke/return history checked with porcupine, exact durable state after a clean drain or a crash at any scheduling point, restart oracle. enum: one of the 48 interleavings of CloseCircuit / FailCircuit / DeleteCircuits(memory, disk) on one circuit x 4 starting situations. non-trivial = (seq/fault-free) a restart with pending circuits and >= 3 calls after it / (seq/faulty) a fault fired and a call completed after it / (race) >= 2 calls issued while another was in flight / (enum) always; distinct = distinct event-trace hash",
         states_measure="distinct (pending, open, closing, restored-half-open counts, epoch mod 3, channel statuses) tuples; race: (pending, open, calls in flight, history length/4)",
         expected_probes=["probe_commit_fail_loaded_halfopen", "probe_commit_drop_keystone", "probe_commit_drop_in_mailbox",
@@ -54,13 +54,13 @@ TEXT = {
 
 KNOWN_FINDINGS = [
     {"property": "C07", "status": "open", "code": "restart-untrimmed", "sig": "pending-close",
-     "what": "open: property=C07 keystones written by OpenCircuits for HTLCs that never reached a commitment are not rolled back at start-up when their outgoing channel is in the pending-close state (close summary with IsPending=true): trimAllOpenCircuits only walks FetchAllOpenChannels. The circuit stays 'open', re-forwards of the incoming HTLC are dropped, nothing fails it back until the channel is fully closed AND the node restarts again. Replay: sim/circuitsim/findings/C07-untrimmed-pending-close.json"},
+     "what": "keystones written by OpenCircuits for HTLCs that never reached a commitment are not rolled back at start-up when their outgoing channel is in the pending-close state (close summary with IsPending=true): trimAllOpenCircuits only walks FetchAllOpenChannels. The circuit stays 'open', re-forwards of the incoming HTLC are dropped, nothing fails it back until the channel is fully closed AND the node restarts again. Replay: sim/circuitsim/findings/C07-untrimmed-pending-close.json"},
     {"property": "C07", "status": "open", "code": "restart-untrimmed", "sig": "purge-gap",
-     "what": "open: property=C07 TrimOpenCircuits scans forward from NextLocalHtlcIndex and stops at the first id without a keystone. cleanClosedChannels deletes the keystones of circuits whose incoming channel is fully closed BEFORE trimAllOpenCircuits runs; if such a keystone sat below other uncommitted keystones of the same outgoing channel the scan stops at the hole and the higher keystones stay open although their HTLC never reached a commitment (also after later link restarts; a new HTLC with that id then hits ErrDuplicateKeystone). Replay: sim/circuitsim/findings/C07-untrimmed-purge-gap.json"},
+     "what": "TrimOpenCircuits scans forward from NextLocalHtlcIndex and stops at the first id without a keystone. cleanClosedChannels deletes the keystones of circuits whose incoming channel is fully closed BEFORE trimAllOpenCircuits runs; if such a keystone sat below other uncommitted keystones of the same outgoing channel the scan stops at the hole and the higher keystones stay open although their HTLC never reached a commitment (also after later link restarts; a new HTLC with that id then hits ErrDuplicateKeystone). Replay: sim/circuitsim/findings/C07-untrimmed-purge-gap.json"},
     {"property": "C07", "status": "open", "code": "restart-untrimmed", "sig": "expiry-gap",
-     "what": "open: property=C07 same root cause as purge-gap (forward scan of TrimOpenCircuits stops at a hole); here the hole is made while the outgoing link is down: the mailbox expires the oldest delivered-but-uncommitted Add (FailCircuit on a circuit that has a keystone), the incoming link deletes the circuit with its keystone, the younger uncommitted keystones above it survive the next trim. Replay: sim/circuitsim/findings/C07-untrimmed-expiry-gap.json"},
+     "what": "same root cause as purge-gap (forward scan of TrimOpenCircuits stops at a hole); here the hole is made while the outgoing link is down: the mailbox expires the oldest delivered-but-uncommitted Add (FailCircuit on a circuit that has a keystone), the incoming link deletes the circuit with its keystone, the younger uncommitted keystones above it survive the next trim. Replay: sim/circuitsim/findings/C07-untrimmed-expiry-gap.json"},
     {"property": "C07", "status": "open", "code": "restart-untrimmed", "sig": "pending-close+purge-gap",
-     "what": "open: property=C07 combination of the pending-close and purge-gap shortfalls of start-up trimming"},
+     "what": "combination of the pending-close and purge-gap shortfalls of start-up trimming"},
     {"property": "C07", "status": "open", "code": "restart-untrimmed", "sig": "pending-close+expiry-gap",
-     "what": "open: property=C07 combination of the pending-close and expiry-gap shortfalls of start-up trimming"},
+     "what": "combination of the pending-close and expiry-gap shortfalls of start-up trimming"},
 ]
